@@ -984,8 +984,12 @@ func (r *Raft) verifyLeader(v *verifyFuture) {
 	v.notifyCh = r.verifyCh
 	r.leaderState.notify[v] = struct{}{}
 
-	// Trigger immediate heartbeats
-	for _, repl := range r.leaderState.replState {
+	// Trigger immediate heartbeats. Only voters take part: an acknowledgement
+	// from a non-voter says nothing about whether a quorum still follows us.
+	for id, repl := range r.leaderState.replState {
+		if !hasVote(r.configurations.latest, id) {
+			continue
+		}
 		repl.notifyLock.Lock()
 		repl.notify[v] = struct{}{}
 		repl.notifyLock.Unlock()
